@@ -46,7 +46,9 @@ WHAT = {
 def d_configs(tier):
     if tier == "quick":
         return [dict(maxlen=4, txn="TRUE", tickers='{"keepalive", "batch"}', crashes=1, black="{}", ticks=1),
-                dict(maxlen=4, txn="FALSE", tickers='{"keepalive", "batch", "cp"}', crashes=1, black="{}", ticks=1)]
+                dict(maxlen=4, txn="FALSE", tickers='{"keepalive", "batch", "cp"}', crashes=1, black="{}", ticks=1),
+                dict(maxlen=4, txn="TRUE", tickers='{"keepalive", "batch"}', crashes=1, black="{1}", ticks=1),
+                dict(maxlen=4, txn="FALSE", tickers='{"keepalive", "batch", "cp"}', crashes=1, black="{1}", ticks=1)]
     return [dict(maxlen=5, txn="TRUE", tickers='{"keepalive", "batch"}', crashes=1, black="{}", ticks=1),
             dict(maxlen=5, txn="FALSE", tickers='{"cp", "batch"}', crashes=1, black="{}", ticks=1),
             dict(maxlen=4, txn="TRUE", tickers='{"keepalive", "batch"}', crashes=2, black="{}", ticks=2),
